@@ -170,7 +170,14 @@ Proof.
   intros He. unfold call.
   eapply good_bind; [apply good_log, He| |intro; assumption|intro; assumption].
   intros _. eapply good_bind; [apply good_pop| |intro; assumption|intro; assumption].
-  intros o. destruct o; [apply good_ret|apply good_throw].
+  intros o. destruct o; [apply good_ret|apply good_throw|apply good_ret].
+Qed.
+Lemma good_call_late sn be e : is_recv e = false -> good sn be sn be (call_late e).
+Proof.
+  intros He. unfold call_late.
+  eapply good_bind; [apply good_log, He| |intro; assumption|intro; assumption].
+  intros _. eapply good_bind; [apply good_pop| |intro; assumption|intro; assumption].
+  intros o. destruct o; [apply good_ret|apply good_throw|apply good_ret].
 Qed.
 
 Lemma good_get_sock sn be : good sn be sn be (@get_sock P).
@@ -299,8 +306,9 @@ Lemma good_send sn be b : good sn be sn be (send peer b).
 Proof.
   unfold send. eapply good_bind; [apply good_get_sock| |intro; assumption|intro; assumption].
   intros [sid|]; [|apply good_throw].
-  eapply good_bind; [apply good_call; reflexivity| |intro; assumption|intro; assumption].
-  intros _. apply good_deliver.
+  eapply good_bind; [apply good_call_late; reflexivity| |intro; assumption|intro; assumption].
+  intros late. eapply good_bind; [apply good_deliver| |intro; assumption|intro; assumption].
+  intros _. destruct late; [apply good_throw|apply good_ret].
 Qed.
 
 Lemma good_reset_buf sn : good sn true sn true (@reset_buf P).
